@@ -147,6 +147,8 @@ func (p *instancePool) Run(ctx context.Context) error {
 
 	rh, err := p.runAsync(ctx)
 	if err != nil {
+		// Nothing has been started, so there will be nothing to wait for.
+		p.onWaitDone()
 		verifEvent(p.ID, "PoolReturn", 0, err)
 		return err
 	}
